@@ -1,4 +1,6 @@
 import KmipModel.ExpectSkel
+import KmipModel.Wire
+import KmipGen.Schema
 import KmipGen.Skeleton
 /-
   C07, generated obligations: the ordered operation skeletons of `Server.serve` and `Server.handleBatch`,
@@ -8,4 +10,38 @@ import KmipGen.Skeleton
 namespace Kmip
 theorem GenC07_serve_skeleton : KmipGen.skel_Server_serve = ExpectSkel.skel_Server_serve := by decide
 theorem GenC07_handleBatch_skeleton : KmipGen.skel_Server_handleBatch = ExpectSkel.skel_Server_handleBatch := by decide
+
+/-! the message model (KmipModel/Wire.lean) reads and writes the fields server.go / client.go read and write: positions and
+    field counts against the schema regenerated from /repo -/
+def wireNameAt (sd : SD) (i : Nat) : Option String := (sd.fields[i]?).map Fld.name
+
+open Kmip.Wire in
+theorem GenC07_wire_positions :
+    wireNameAt KmipGen.sd_Request rqHeader = some "Header" ∧
+    wireNameAt KmipGen.sd_Request rqItems = some "BatchItems" ∧
+    wireNameAt KmipGen.sd_RequestHeader hVersion = some "Version" ∧
+    wireNameAt KmipGen.sd_RequestHeader hClientCorr = some "ClientCorrelationValue" ∧
+    wireNameAt KmipGen.sd_RequestHeader hAsync = some "AsynchronousIndicator" ∧
+    wireNameAt KmipGen.sd_RequestHeader hAuth = some "Authentication" ∧
+    wireNameAt KmipGen.sd_RequestHeader hBatchCount = some "BatchCount" ∧
+    wireNameAt KmipGen.sd_Authentication aCredType = some "CredentialType" ∧
+    wireNameAt KmipGen.sd_RequestBatchItem iOperation = some "Operation" ∧
+    wireNameAt KmipGen.sd_RequestBatchItem iUniqueID = some "UniqueID" ∧
+    wireNameAt KmipGen.sd_RequestBatchItem iPayload = some "RequestPayload" := by decide
+
+/-- the Response / Request values the message model builds have one entry per field of the Go structs, in their order -/
+theorem GenC07_wire_shapes :
+    KmipGen.sd_Response.fields.map Fld.name = ["Header", "BatchItems"] ∧
+    KmipGen.sd_ResponseHeader.fields.map Fld.name =
+      ["Version", "TimeStamp", "Nonce", "AttestationType", "ClientCorrelationValue", "ServerCorrelationValue", "BatchCount"] ∧
+    KmipGen.sd_ResponseBatchItem.fields.map Fld.name =
+      ["Operation", "UniqueID", "ResultStatus", "ResultReason", "ResultMessage", "AsyncronousCorrelationValue", "ResponsePayload", "MessageExtension"] ∧
+    KmipGen.sd_RequestHeader.fields.map Fld.name =
+      ["Version", "MaxResponseSize", "ClientCorrelationValue", "ServerCorrelationValue", "AsynchronousIndicator",
+       "AttestationCapableIndicator", "AttestationType", "Authentication", "BatchErrorContinuationOption", "BatchOrderOption",
+       "TimeStamp", "BatchCount"] ∧
+    KmipGen.sd_RequestBatchItem.fields.map Fld.name = ["Operation", "UniqueID", "RequestPayload", "MessageExtension"] ∧
+    KmipGen.sd_Authentication.fields.map Fld.name = ["CredentialType", "CredentialValue"] ∧
+    KmipGen.sd_ProtocolVersion.fields.map Fld.name = ["Major", "Minor"] := by decide
+
 end Kmip
